@@ -20,6 +20,12 @@ def hierarchy_family(shape, mcfg, super_style, ctor_style, with_dtor):
         parents["C"] = "B"
     elif shape == "fork":
         parents["C"] = "A"
+    elif shape == "chain4":
+        parents["C"] = "B"
+        parents["E"] = "C"
+    elif shape == "tree":
+        parents["C"] = "A"
+        parents["E"] = "B"
     classes = list(parents)
     src = LOG
     for c in classes:
@@ -86,10 +92,10 @@ class Model:
 
 def hierarchy_programs(tier):
     progs = []
-    shapes = ["pair", "chain", "fork"]
+    shapes = ["pair", "chain", "fork"] + (["chain4", "tree"] if tier == "thorough" else [])
     opts = ["inherit", "override", "override-super"]
     for shape in shapes:
-        derived = ["B"] if shape == "pair" else ["B", "C"]
+        derived = {"pair": ["B"], "chain": ["B", "C"], "fork": ["B", "C"], "chain4": ["B", "C", "E"], "tree": ["B", "C", "E"]}[shape]
         for cfgs in itertools.product(opts, repeat=len(derived)):
             mcfg = dict(zip(derived, cfgs))
             for super_style, ctor_style, with_dtor in itertools.product(("explicit", "implicit"), ("plain", "return-this"), (True, False)):
